@@ -486,9 +486,10 @@ Definition sample_tree : node := Node [] [] s_MT [] []
    LinkNode [109] [66] [47;89]].
 
 (* =====================================================================================================================
-   cgnsdiff, every option set (-c -i -d -f, with / without -r): the bisection finds what a scan finds when the list is
-   sorted by the key it searches with; the matching loop pairs exactly the children with equal keys; the output is
-   empty iff the two forests are equal up to the order of children and up to the normalisation of names
+   cgnsdiff, every option set (-c -i -d -f, with / without -r), matching code MCur (= /repo since 180fd8e): the bisection
+   finds what a scan finds when the list is sorted by the key it searches with; the matching loop pairs exactly the
+   children with equal keys and never leaves the arrays; the output is empty iff the two forests are equal up to the
+   order of children and up to the normalisation of names; a forest compared with itself is silent whatever the keys
    ===================================================================================================================== *)
 Module DiffP.
 Definition strip (n : node) : node := rename [] n.
@@ -664,6 +665,8 @@ Lemma lenZ_app {A} (a b : list A) : lenZ (a ++ b) = lenZ a + lenZ b.
 Proof. unfold lenZ. rewrite app_length. lia. Qed.
 Lemma lenZ_nonneg {A} (a : list A) : 0 <= lenZ a.
 Proof. unfold lenZ. lia. Qed.
+Lemma lenZ_cons {A} (x : A) l : lenZ (x :: l) = 1 + lenZ l.
+Proof. unfold lenZ. simpl length. lia. Qed.
 
 Section Find.
 Variable key : bytes -> bytes.
@@ -708,10 +711,22 @@ Proof.
   - apply IH; auto. lia.
 Qed.
 
-Lemma bisect_correct p1 l : ksorted key l -> forall fuel lo hi,
+Lemma walk_back_sorted p1 l fuel mid : ksorted key l -> 0 <= mid < lenZ l ->
+  key (nth (Z.to_nat mid) l []) = p1 -> walk_back key fuel p1 l mid = mid.
+Proof.
+  intros S Hm Hk. destruct fuel as [|f]; cbn [walk_back]; auto.
+  destruct (Z.ltb_spec 0 mid) as [Hpos|_]; cbn [andb]; auto.
+  destruct (bytes_eqb p1 (key (nth (Z.to_nat (mid - 1)) l []))) eqn:E; auto.
+  apply bytes_eqb_eq in E. exfalso.
+  assert (L : bytes_ltb (key (nth (Z.to_nat (mid - 1)) l [])) (key (nth (Z.to_nat mid) l [])) = true)
+    by (apply ksorted_nth_lt; auto; unfold lenZ in *; lia).
+  rewrite <- E, Hk, ltb_irrefl in L. discriminate.
+Qed.
+
+Lemma bisect_correct m p1 l : ksorted key l -> forall fuel lo hi,
   0 <= lo -> hi <= lenZ l - 1 -> hi - lo + 1 < Z.of_nat fuel ->
   (forall j, 0 <= j < lenZ l -> j < lo \/ hi < j -> key (nth (Z.to_nat j) l []) <> p1) ->
-  bisect key fuel p1 l lo hi = find_scan_from key p1 l 0.
+  bisect m key fuel p1 l lo hi = find_scan_from key p1 l 0.
 Proof.
   intros S. induction fuel as [|f IH]; intros lo hi Hlo Hhi Hf Hout; cbn [bisect].
   - symmetry. apply scan_all_out. intros j Hj. apply Hout; auto. lia.
@@ -723,7 +738,8 @@ Proof.
         pose proof (Z.mod_pos_bound (lo + hi) 2 ltac:(lia)). lia. }
       assert (Hm : (Z.to_nat mid < length l)%nat) by (unfold lenZ in *; lia).
       destruct (bytes_eqb p1 (key (nth (Z.to_nat mid) l []))) eqn:E.
-      * apply bytes_eqb_eq in E. rewrite (scan_at p1 l (Z.to_nat mid) 0); auto. lia.
+      * apply bytes_eqb_eq in E. rewrite (scan_at p1 l (Z.to_nat mid) 0); auto.
+        destruct m; [lia|]. rewrite walk_back_sorted; auto; unfold lenZ in *; lia.
       * apply bytes_eqb_neq in E.
         destruct (bytes_ltb (key (nth (Z.to_nat mid) l [])) p1) eqn:L.
         -- apply IH; try lia. intros j Hj Hc.
@@ -746,34 +762,75 @@ Proof.
 Qed.
 
 (* FALSE for l = [] : both probes read the default entry [] (in C: out of bounds), e.g. find_name id [] [] = 0 *)
-Theorem find_name_correct : forall l name,
-  l <> [] -> ksorted key l -> find_name key name l = find_scan key name l.
+Theorem find_name_correct : forall m l name,
+  l <> [] -> ksorted key l -> find_name m key name l = find_scan key name l.
 Proof.
-  intros l name Hne S. unfold find_name, find_scan.
+  intros m l name Hne S. unfold find_name, find_scan.
   assert (Hlen : 1 <= lenZ l) by (destruct l; [congruence|unfold lenZ; simpl length; lia]).
   destruct (bytes_eqb (key name) (key (nth 0 l []))) eqn:E0.
   - apply bytes_eqb_eq in E0. rewrite (scan_at (key name) l 0 0); auto. unfold lenZ in Hlen. lia.
-  - destruct (bytes_eqb (key name) (key (nth (Z.to_nat (lenZ l - 1)) l []))) eqn:E1.
-    + apply bytes_eqb_eq in E1. rewrite (scan_at (key name) l (Z.to_nat (lenZ l - 1)) 0); auto; unfold lenZ in *; lia.
+  - destruct m; cbn [andb].
+    + destruct (bytes_eqb (key name) (key (nth (Z.to_nat (lenZ l - 1)) l []))) eqn:E1.
+      * apply bytes_eqb_eq in E1. rewrite (scan_at (key name) l (Z.to_nat (lenZ l - 1)) 0); auto; unfold lenZ in *; lia.
+      * apply bisect_correct; auto; try lia. unfold lenZ. lia.
     + apply bisect_correct; auto; try lia. unfold lenZ. lia.
+Qed.
+
+(* the search answers -1 or an index of its list, whatever the list (sorted or not) *)
+Lemma walk_back_bound p1 l : forall fuel mid, 0 <= mid -> 0 <= walk_back key fuel p1 l mid <= mid.
+Proof.
+  induction fuel as [|f IH]; intros mid Hm; cbn [walk_back]; [lia|].
+  destruct (Z.ltb_spec 0 mid) as [Hpos|_]; cbn [andb]; [|lia].
+  destruct (bytes_eqb p1 (key (nth (Z.to_nat (mid - 1)) l []))); [|lia].
+  specialize (IH (mid - 1)). lia.
+Qed.
+Lemma bisect_bound m p1 l : forall fuel lo hi, 0 <= lo ->
+  bisect m key fuel p1 l lo hi = -1 \/ 0 <= bisect m key fuel p1 l lo hi <= hi.
+Proof.
+  induction fuel as [|f IH]; intros lo hi Hlo; cbn [bisect]; auto.
+  destruct (Z.ltb_spec hi lo) as [Hlt|Hge]; auto.
+  assert (Hmid : lo <= (lo + hi) / 2 <= hi).
+  { pose proof (Z.div_mod (lo + hi) 2 ltac:(lia)). pose proof (Z.mod_pos_bound (lo + hi) 2 ltac:(lia)). lia. }
+  destruct (bytes_eqb p1 (key (nth (Z.to_nat ((lo + hi) / 2)) l []))).
+  - right. destruct m; [lia|]. pose proof (walk_back_bound p1 l (Z.to_nat ((lo + hi) / 2)) ((lo + hi) / 2)). lia.
+  - destruct (bytes_ltb (key (nth (Z.to_nat ((lo + hi) / 2)) l [])) p1).
+    + apply IH. lia.
+    + destruct (IH lo ((lo + hi) / 2 - 1) Hlo) as [E|B]; auto. right. lia.
+Qed.
+Lemma find_name_bound m name l : l <> [] -> -1 <= find_name m key name l < lenZ l.
+Proof.
+  intros Hne. unfold find_name.
+  assert (Hlen : 1 <= lenZ l) by (destruct l; [congruence|unfold lenZ; simpl length; lia]).
+  destruct (bytes_eqb (key name) (key (nth 0 l []))); [lia|].
+  destruct ((match m with MOld => true | MCur => false end) &&
+            bytes_eqb (key name) (key (nth (Z.to_nat (lenZ l - 1)) l []))); [lia|].
+  destruct (bisect_bound m (key name) l (S (length l)) 0 (lenZ l - 1)); lia.
 Qed.
 End Find.
 
 Lemma find_name_empty_list_counterexample :
-  find_name (fun x => x) [] [] = 0 /\ find_scan (fun x => x) [] [] = -1.
-Proof. split; reflexivity. Qed.
+  forall m, find_name m (fun x => x) [] [] = 0 /\ find_scan (fun x => x) [] [] = -1.
+Proof. destruct m; split; reflexivity. Qed.
 
 (* a mismatch really breaks it: list sorted by the raw names ("B D a c e"), searched with the case-folded key: "D" is missed *)
 Theorem find_name_key_mismatch_refuted :
   exists l name, let raw := fun x : bytes => x in let fold := copy_name true false in
     NoDup (map fold l) /\ In name l /\
-    find_name fold name (sort_names_by raw l) <> find_scan fold name (sort_names_by raw l).
+    find_name MCur fold name (sort_names_by raw l) <> find_scan fold name (sort_names_by raw l).
 Proof.
   exists [[66];[68];[97];[99];[101]], [68]. cbv zeta. split; [|split].
   - vm_compute. repeat constructor; simpl; intuition discriminate.
   - simpl; auto.
   - vm_compute. discriminate.
 Qed.
+
+(* H5 (history): on a run of equal keys at the end of the list ("x Y y", case folded) the old search answered the LAST
+   entry (its last-entry probe), the repaired one the first *)
+Lemma find_name_old_vs_cur :
+  let fold := copy_name true false in
+  find_name MOld fold [89] [[120];[89];[121]] = 2 /\ find_name MCur fold [89] [[120];[89];[121]] = 1 /\
+  find_scan fold [89] [[120];[89];[121]] = 1.
+Proof. vm_compute. auto. Qed.
 
 (* ---- sort_nodes ------------------------------------------------------------------------------------------------------ *)
 Lemma insert_node_perm x l : Permutation (insert_node x l) (x :: l).
@@ -1020,20 +1077,33 @@ Proof.
   - intros [(p & q & _ & [] & _)|[(p & -> & I & _)|(q & _ & [] & _)]]. eauto.
 Qed.
 
-Lemma diff_loop_spec_gen c2 : c2 <> [] -> ksorted key c2 -> forall l1 done2 todo2,
-  c2 = done2 ++ todo2 -> ksorted key l1 -> (forall p, In p l1 -> unm p done2) ->
-  forall x, In x (diff_loop false key rec c2 nm1 nm2 l1 (lenZ done2)) <-> loop_spec l1 todo2 x.
+Lemma ksorted_suffix {A} (f : A -> bytes) (a b : list A) : ksorted f (a ++ b) -> ksorted f b.
+Proof. induction a as [|y a IH]; simpl; auto. intros [_ H]. auto. Qed.
+
+Lemma diff_loop_spec_gen c2 : forall l1 done2 todo2,
+  c2 = done2 ++ todo2 -> ksorted key todo2 -> ksorted key l1 ->
+  forall x, In x (diff_loop MCur false key rec c2 nm1 nm2 l1 (lenZ done2)) <-> loop_spec l1 todo2 x.
 Proof.
-  intros Hne S2. induction l1 as [|p rest IH]; intros done2 todo2 Hc S1 Hinv x; cbn [diff_loop].
+  induction l1 as [|p rest IH]; intros done2 todo2 Hc S2 S1 x; cbn [diff_loop].
   - assert (Hsk : skipn (Z.to_nat (lenZ done2)) c2 = todo2) by (rewrite Hc; apply skipn_lenZ_app).
     rewrite Hsk. apply loop_spec_nil_l.
-  - rewrite (find_name_correct key c2 p Hne S2). unfold find_scan.
+  - assert (Hsk : skipn (Z.to_nat (lenZ done2)) c2 = todo2) by (rewrite Hc; apply skipn_lenZ_app).
+    rewrite Hsk.
+    assert (Hlen : lenZ c2 = lenZ done2 + lenZ todo2) by (rewrite Hc; apply lenZ_app).
+    pose proof (lenZ_nonneg done2) as Hd0.
     destruct S1 as [Rg S1].
-    destruct (key_split p c2) as [U|(a & q & b & Hab & Hq & Ua)].
-    + rewrite scan_none by (intros y I; apply U; auto).
+    destruct (key_split p todo2) as [Ut|(gap & q & b & Et & Hq & Ug)].
+    + assert (Hn : (if lenZ done2 <? lenZ c2
+                    then if 0 <=? find_name MCur key p todo2 then find_name MCur key p todo2 + lenZ done2
+                         else find_name MCur key p todo2
+                    else -1) = -1).
+      { destruct (Z.ltb_spec (lenZ done2) (lenZ c2)) as [Hlt|_]; auto.
+        assert (Hne : todo2 <> []) by (intros C; rewrite C in Hlen; change (lenZ (@nil bytes)) with 0 in Hlen; lia).
+        rewrite (find_name_correct key MCur todo2 p Hne S2). unfold find_scan.
+        rewrite scan_none by (intros y I; apply Ut; auto). reflexivity. }
+      rewrite Hn.
       change (-1 <? 0) with true. cbv iota. cbn [In].
-      rewrite (IH done2 todo2 Hc S1 (fun p' I => Hinv p' (or_intror I))).
-      assert (Ut : unm p todo2) by (intros z I; apply U; rewrite Hc; apply in_or_app; auto).
+      rewrite (IH done2 todo2 Hc S2 S1).
       unfold loop_spec. split.
       * intros [<-|[(p' & q' & I1 & I2 & E & Ix)|[(p' & -> & I1 & U1)|(q' & -> & I2 & U2)]]].
         -- right; left. exists p. repeat split; auto. left; auto.
@@ -1047,48 +1117,41 @@ Proof.
         -- left; auto.
         -- right; right; left. exists p'. auto.
         -- right; right; right. exists q'. repeat split; auto. intros z I; apply U2; right; auto.
-    + assert (Hf : find_scan_from key (key p) c2 0 = lenZ a).
-      { rewrite Hab, scan_first; auto. }
-      rewrite Hf. pose proof (lenZ_nonneg a) as Ha0. pose proof (lenZ_nonneg done2) as Hd0.
-      destruct (Z.ltb_spec (lenZ a) 0) as [?|_]; [lia|].
-      assert (Hgap : exists gap, a = done2 ++ gap /\ todo2 = gap ++ q :: b).
-      { pose proof Hc as Hcc. rewrite Hab in Hcc. symmetry in Hcc.
-        apply app_eq_app in Hcc as [l [[E1 E2]|[E1 E2]]].
-        - destruct l as [|z l].
-          + exists []. rewrite app_nil_r in *. simpl in E2. simpl. split; congruence.
-          + exfalso. simpl in E2. injection E2 as <- _.
-            apply (Hinv p (or_introl eq_refl) q); auto. rewrite E1. apply in_or_app. right. left. auto.
-        - exists l. auto. }
-      destruct Hgap as (gap & -> & ->).
-      pose proof S2 as S2a. rewrite Hab in S2a. apply ksorted_app in S2a as (G0 & Bg0 & _).
+    + assert (Hne : todo2 <> []) by (rewrite Et; destruct gap; discriminate).
+      assert (Hab : c2 = (done2 ++ gap) ++ q :: b) by (rewrite Hc, Et, app_assoc; reflexivity).
+      assert (Hf : find_name MCur key p todo2 = lenZ gap).
+      { rewrite (find_name_correct key MCur todo2 p Hne S2). unfold find_scan.
+        rewrite Et, scan_first; auto. }
+      rewrite Hf. pose proof (lenZ_nonneg gap) as Hg0.
+      assert (Hlt0 : lenZ done2 <? lenZ c2 = true).
+      { apply Z.ltb_lt. rewrite Hlen, Et, lenZ_app, lenZ_cons. pose proof (lenZ_nonneg b). lia. }
+      rewrite Hlt0.
+      assert (Hge : 0 <=? lenZ gap = true) by (apply Z.leb_le; lia). rewrite Hge.
+      replace (lenZ gap + lenZ done2) with (lenZ (done2 ++ gap)) by (rewrite lenZ_app; lia).
+      pose proof (lenZ_nonneg (done2 ++ gap)) as Ha0.
+      destruct (Z.ltb_spec (lenZ (done2 ++ gap)) 0) as [?|_]; [lia|].
+      pose proof S2 as S2a. rewrite Et in S2a. apply ksorted_app in S2a as (G0 & Bg0 & Sb).
       assert (G : forall g, In g gap -> bytes_ltb (key g) (key p) = true).
-      { intros g I. rewrite <- Hq. apply G0. apply in_or_app; auto. }
+      { intros g I. rewrite <- Hq. apply G0. auto. }
       assert (Bg : forall z, In z b -> bytes_ltb (key p) (key z) = true).
       { intros z I. rewrite <- Hq. auto. }
-      assert (Hsk : skipn (Z.to_nat (lenZ done2)) c2 = gap ++ q :: b) by (rewrite Hc; apply skipn_lenZ_app).
-      rewrite Hsk.
+      rewrite Et.
       replace (Z.to_nat (lenZ (done2 ++ gap) - lenZ done2)) with (length gap)
         by (rewrite lenZ_app; unfold lenZ; lia).
       rewrite firstn_app, firstn_all, Nat.sub_diag. cbn [firstn]. rewrite app_nil_r.
       replace (Z.max (lenZ done2) (lenZ (done2 ++ gap))) with (lenZ (done2 ++ gap))
-        by (rewrite lenZ_app; pose proof (lenZ_nonneg gap); lia).
+        by (rewrite lenZ_app; lia).
       assert (Hlt : lenZ c2 <=? lenZ (done2 ++ gap) = false).
-      { apply Z.leb_gt. rewrite Hab, (lenZ_app (done2 ++ gap)). unfold lenZ at 3. simpl length. lia. }
+      { apply Z.leb_gt. rewrite Hab, (lenZ_app (done2 ++ gap)), lenZ_cons. pose proof (lenZ_nonneg b). lia. }
       rewrite Hlt.
       assert (Hnth : nth (Z.to_nat (lenZ (done2 ++ gap))) c2 [] = q).
       { rewrite Hab. unfold lenZ. rewrite Nat2Z.id. apply nth_middle. }
       rewrite Hnth. cbn [negb orb].
       rewrite !in_app_iff, in_map_iff.
-      assert (IHx : In x (diff_loop false key rec c2 nm1 nm2 rest (lenZ (done2 ++ gap) + 1)) <-> loop_spec rest b x).
+      assert (IHx : In x (diff_loop MCur false key rec c2 nm1 nm2 rest (lenZ (done2 ++ gap) + 1)) <-> loop_spec rest b x).
       { replace (lenZ (done2 ++ gap) + 1) with (lenZ ((done2 ++ gap) ++ [q]))
           by (rewrite (lenZ_app (done2 ++ gap)); reflexivity).
-        apply IH; auto.
-        - rewrite <- app_assoc. auto.
-        - intros p' I' z Iz. apply in_app_or in Iz as [Iz|[<-|[]]].
-          + apply in_app_or in Iz as [Iz|Iz].
-            * apply (Hinv p' (or_intror I')); auto.
-            * apply lt_ne. eapply ltb_trans; [apply G; auto|apply Rg; auto].
-          + rewrite Hq. apply lt_ne. apply Rg; auto. }
+        apply IH; auto. rewrite <- app_assoc. auto. }
       rewrite IHx. clear IHx IH Hnth Hlt Hsk Hf.
       unfold loop_spec. split.
       * intros [(g & <- & Ig)|[Ix|[(p' & q' & I1 & I2 & E & Ix)|[(p' & -> & I1 & U1)|(q' & -> & I2 & U2)]]]].
@@ -1124,38 +1187,38 @@ Proof.
               intros z Iz. apply U2. right. auto.
 Qed.
 
-Lemma diff_loop_spec c1 c2 : ksorted key c1 -> ksorted key c2 -> c2 <> [] ->
-  forall x, In x (diff_loop false key rec c2 nm1 nm2 c1 0) <-> loop_spec c1 c2 x.
+Lemma diff_loop_spec c1 c2 : ksorted key c1 -> ksorted key c2 ->
+  forall x, In x (diff_loop MCur false key rec c2 nm1 nm2 c1 0) <-> loop_spec c1 c2 x.
 Proof.
-  intros S1 S2 Hne x. apply (diff_loop_spec_gen c2 Hne S2 c1 [] c2); auto. intros p _ ? [].
+  intros S1 S2 x. apply (diff_loop_spec_gen c2 c1 [] c2); auto.
 Qed.
 End LoopSpec.
 
 (* ---- G2: the matching pairs exactly the children whose normalised names are equal ------------------------------------------ *)
-(* FALSE without [c2 <> []]: key = id, c1 = [[]], c2 = []: find_name on the empty list "finds" the default entry [] at
-   position 0 and the loop answers [DOutOfBounds]; compare_nodes never runs the loop on an empty list *)
-Lemma matching_exact_empty_counterexample :
-  diff_loop false (fun x => x) (fun p q => [DData p q]) (sort_names_by (fun x => x) []) [] []
-            (sort_names_by (fun x => x) [[]]) 0 = [DOutOfBounds].
-Proof. reflexivity. Qed.
+(* before the repair (MOld) this was false for c2 = [] (key = id, c1 = [[]]: the search of the empty list "finds" the
+   default entry and the loop answers [DOutOfBounds]); the repaired loop does not search an exhausted list *)
+Lemma matching_exact_empty_old_vs_cur :
+  diff_loop MOld false (fun x => x) (fun p q => [DData p q]) (sort_names_by (fun x => x) []) [] []
+            (sort_names_by (fun x => x) [[]]) 0 = [DOutOfBounds] /\
+  diff_loop MCur false (fun x => x) (fun p q => [DData p q]) (sort_names_by (fun x => x) []) [] []
+            (sort_names_by (fun x => x) [[]]) 0 = [DLeft [47]].
+Proof. split; reflexivity. Qed.
 
 Theorem matching_exact : forall key nm1 nm2 c1 c2,
-  c2 <> [] ->
   NoDup (map key c1) -> NoDup (map key c2) ->
-  let out := diff_loop false key (fun p q => [DData p q]) (sort_names_by key c2) nm1 nm2 (sort_names_by key c1) 0 in
+  let out := diff_loop MCur false key (fun p q => [DData p q]) (sort_names_by key c2) nm1 nm2 (sort_names_by key c1) 0 in
   (forall p q, In (DData p q) out <-> In p c1 /\ In q c2 /\ key p = key q) /\
   (forall x, In (DLeft x) out <-> exists p, x = slash nm1 p /\ In p c1 /\ ~ In (key p) (map key c2)) /\
   (forall x, In (DRight x) out <-> exists q, x = slash nm2 q /\ In q c2 /\ ~ In (key q) (map key c1)) /\
   ~ In DOutOfBounds out /\ ~ In DPathOverflow out.
 Proof.
-  intros key nm1 nm2 c1 c2 Hne N1 N2 out.
+  intros key nm1 nm2 c1 c2 N1 N2 out.
   assert (Hs : forall x, In x out <-> loop_spec key (fun p q => [DData p q]) nm1 nm2 c1 c2 x).
   { intros x. unfold out. rewrite diff_loop_spec.
     - apply loop_spec_perm; intros z; split; apply Permutation_in;
         try apply sort_names_by_perm; symmetry; apply sort_names_by_perm.
     - apply sort_names_by_sorted; auto.
-    - apply sort_names_by_sorted; auto.
-    - intros C. apply Hne. apply Permutation_nil. rewrite <- C. apply sort_names_by_perm. }
+    - apply sort_names_by_sorted; auto. }
   assert (Hun : forall p c, unm key p c <-> ~ In (key p) (map key c)).
   { intros p c. split.
     - intros U I. apply in_map_iff in I as (q & E & I). apply (U q I E).
@@ -1226,7 +1289,7 @@ Lemma kids_iff ksort K dd R ks1 ks2 nm1 nm2 :
     then map (fun q => DRight (slash nm2 q)) (sort_names_by ksort (map node_name ks2))
     else if is_nil (sort_names_by ksort (map node_name ks2))
          then map (fun p => DLeft (slash nm1 p)) (sort_names_by ksort (map node_name ks1))
-         else diff_loop false K R (sort_names_by ksort (map node_name ks2)) nm1 nm2
+         else diff_loop MCur false K R (sort_names_by ksort (map node_name ks2)) nm1 nm2
                         (sort_names_by ksort (map node_name ks1)) 0) = []
    <-> sort_nodes (map (canon_by K dd) ks1) = sort_nodes (map (canon_by K dd) ks2)).
 Proof.
@@ -1245,7 +1308,7 @@ Proof.
     rewrite <- (loop_spec_perm K R nm1 nm2 _ _ _ _ x P1 P2).
     destruct (sort_names_by K raw1) as [|x1 r1]; cbn [is_nil]; [apply loop_spec_nil_l|].
     destruct (sort_names_by K raw2) as [|x2 r2]; cbn [is_nil]; [apply loop_spec_nil_r|].
-    apply diff_loop_spec; auto. discriminate. }
+    apply diff_loop_spec; auto. }
   rewrite nil_iff_no_in.
   assert (Hcn : forall k k', canon_by K dd k = canon_by K dd k' -> K (node_name k) = K (node_name k')).
   { intros k k' E. apply (f_equal node_name) in E. rewrite !canon_by_name in E. auto. }
@@ -1308,18 +1371,18 @@ Proof. destruct fuel; reflexivity. Qed.
 
 Lemma compare_nodes_S o w1 w2 f name1 cf1 a1 l1 t1 d1 da1 ks1 name2 cf2 a2 l2 t2 d2 da2 ks2 :
   d_recurse o = true ->
-  compare_nodes Cur o w1 w2 (S f) name1 cf1 (Node a1 l1 t1 d1 da1 ks1) name2 cf2 (Node a2 l2 t2 d2 da2 ks2) =
+  compare_nodes Cur MCur o w1 w2 (S f) name1 cf1 (Node a1 l1 t1 d1 da1 ks1) name2 cf2 (Node a2 l2 t2 d2 da2 ks2) =
   (if bytes_eqb name1 [47] && bytes_eqb name2 [47] then []
    else compare_data (d_data o) name1 name2 (Node a1 l1 t1 d1 da1 ks1) (Node a2 l2 t2 d2 da2 ks2)) ++
   (if is_nil (sort_names_by (sort_key o) (map node_name ks1))
    then map (fun q => DRight (slash (unroot name2) q)) (sort_names_by (sort_key o) (map node_name ks2))
    else if is_nil (sort_names_by (sort_key o) (map node_name ks2))
         then map (fun p => DLeft (slash (unroot name1) p)) (sort_names_by (sort_key o) (map node_name ks1))
-        else diff_loop false (find_key o)
+        else diff_loop MCur false (find_key o)
                (fun p q =>
                   match find_kid ks1 p, find_kid ks2 q with
                   | Some k1, Some k2 =>
-                      compare_nodes Cur o w1 w2 f (slash (unroot name1) p) cf1 k1 (slash (unroot name2) q) cf2 k2
+                      compare_nodes Cur MCur o w1 w2 f (slash (unroot name1) p) cf1 k1 (slash (unroot name2) q) cf2 k2
                   | _, _ => [DErrExit]
                   end)
                (sort_names_by (sort_key o) (map node_name ks2)) (unroot name1) (unroot name2)
@@ -1329,7 +1392,7 @@ Proof. intros Hr. destruct o as [dd df dc ds dr]. simpl in Hr. subst dr. destruc
 (* G5: without -r only the two named nodes are compared *)
 Lemma no_recurse_only_data : forall o w1 w2 f name1 cf1 a1 l1 t1 d1 da1 ks1 name2 cf2 a2 l2 t2 d2 da2 ks2,
   d_recurse o = false ->
-  compare_nodes Cur o w1 w2 (S f) name1 cf1 (Node a1 l1 t1 d1 da1 ks1) name2 cf2 (Node a2 l2 t2 d2 da2 ks2) =
+  compare_nodes Cur MCur o w1 w2 (S f) name1 cf1 (Node a1 l1 t1 d1 da1 ks1) name2 cf2 (Node a2 l2 t2 d2 da2 ks2) =
   if bytes_eqb name1 [47] && bytes_eqb name2 [47] then []
   else compare_data (d_data o) name1 name2 (Node a1 l1 t1 d1 da1 ks1) (Node a2 l2 t2 d2 da2 ks2).
 Proof. intros o. intros. destruct o as [dd df dc ds dr]. simpl in H. subst dr. reflexivity. Qed.
@@ -1343,7 +1406,7 @@ Definition diff_stmt (o : dopts) (w1 w2 : world) (f : nat) : Prop :=
   names_nonempty t1 = true -> names_nonempty t2 = true ->
   tree_ok Old false t1 = true -> tree_ok Old false t2 = true ->
   (depth t1 <= f)%nat ->
-  (compare_nodes Cur o w1 w2 f name1 cf1 t1 name2 cf2 t2 = [] <->
+  (compare_nodes Cur MCur o w1 w2 f name1 cf1 t1 name2 cf2 t2 = [] <->
    strip (canon_by (find_key o) (d_data o) t1) = strip (canon_by (find_key o) (d_data o) t2)).
 
 Definition forest_ok (K : bytes -> bytes) (ks : list node) : Prop :=
@@ -1369,10 +1432,10 @@ Lemma kids_part o w1 w2 f nm1 nm2 cf1 cf2 ks1 ks2 :
     then map (fun q => DRight (slash nm2 q)) (sort_names_by (sort_key o) (map node_name ks2))
     else if is_nil (sort_names_by (sort_key o) (map node_name ks2))
          then map (fun p => DLeft (slash nm1 p)) (sort_names_by (sort_key o) (map node_name ks1))
-         else diff_loop false (find_key o)
+         else diff_loop MCur false (find_key o)
                 (fun p q =>
                    match find_kid ks1 p, find_kid ks2 q with
-                   | Some k1, Some k2 => compare_nodes Cur o w1 w2 f (slash nm1 p) cf1 k1 (slash nm2 q) cf2 k2
+                   | Some k1, Some k2 => compare_nodes Cur MCur o w1 w2 f (slash nm1 p) cf1 k1 (slash nm2 q) cf2 k2
                    | _, _ => [DErrExit]
                    end)
                 (sort_names_by (sort_key o) (map node_name ks2)) nm1 nm2
@@ -1425,7 +1488,7 @@ Theorem diff_empty_iff : forall o w1 w2 fuel name1 cf1 t1 name2 cf2 t2,
   names_nonempty t1 = true -> names_nonempty t2 = true ->
   tree_ok Old false t1 = true -> tree_ok Old false t2 = true ->
   (depth t1 <= fuel)%nat ->
-  (compare_nodes Cur o w1 w2 fuel name1 cf1 t1 name2 cf2 t2 = [] <->
+  (compare_nodes Cur MCur o w1 w2 fuel name1 cf1 t1 name2 cf2 t2 = [] <->
    strip (canon_by (find_key o) (d_data o) t1) = strip (canon_by (find_key o) (d_data o) t2)).
 Proof.
   intros. apply diff_main; auto.
@@ -1440,7 +1503,7 @@ Theorem cgnsdiff_silent_iff : forall o w1 w2 fuel f1 f2 r1 r2,
   names_nonempty r1 = true -> names_nonempty r2 = true ->
   kids_ok Old false r1 = true -> kids_ok Old false r2 = true ->
   (depth r1 <= fuel)%nat ->
-  (cgnsdiff Cur o w1 w2 fuel f1 f2 = [] <->
+  (cgnsdiff Cur MCur o w1 w2 fuel f1 f2 = [] <->
    sort_nodes (map (canon_by (find_key o) (d_data o)) (kids_of r1)) =
    sort_nodes (map (canon_by (find_key o) (d_data o)) (kids_of r2))).
 Proof.
@@ -1462,7 +1525,7 @@ Theorem cgnsdiff_same_forest_silent : forall o w1 w2 fuel f1 f2 r1 r2,
   d_recurse o = true -> get_file w1 f1 = Some r1 -> get_file w2 f2 = Some r2 -> kids_of r2 = kids_of r1 ->
   link_free r1 = true -> link_free r2 = true -> keys_unique (find_key o) r1 = true -> names_nonempty r1 = true ->
   kids_ok Old false r1 = true -> (depth r1 <= fuel)%nat ->
-  cgnsdiff Cur o w1 w2 fuel f1 f2 = [].
+  cgnsdiff Cur MCur o w1 w2 fuel f1 f2 = [].
 Proof.
   intros o w1 w2 fuel f1 f2 r1 r2 Hr G1 G2 EK L1 L2 U1 E1 O1 D.
   apply (cgnsdiff_silent_iff o w1 w2 fuel f1 f2 r1 r2); auto.
@@ -1484,10 +1547,165 @@ Theorem cgnsdiff_reports_difference : forall o w1 w2 fuel f1 f2 r1 r2,
   (depth r1 <= fuel)%nat ->
   sort_nodes (map (canon_by (find_key o) (d_data o)) (kids_of r1)) <>
   sort_nodes (map (canon_by (find_key o) (d_data o)) (kids_of r2)) ->
-  cgnsdiff Cur o w1 w2 fuel f1 f2 <> [].
+  cgnsdiff Cur MCur o w1 w2 fuel f1 f2 <> [].
 Proof.
   intros o w1 w2 fuel f1 f2 r1 r2 Hr G1 G2 L1 L2 U1 U2 E1 E2 O1 O2 D Hne C.
   apply Hne. apply (cgnsdiff_silent_iff o w1 w2 fuel f1 f2 r1 r2); auto.
+Qed.
+
+(* ---- H4: a forest compared with itself is silent, whatever the keys; the repaired loop stays inside its arrays ---------------- *)
+Lemma compare_data_refl dd n1 n2 a l t d da ks a' ks' :
+  compare_data dd n1 n2 (Node a l t d da ks) (Node a' l t d da ks') = [].
+Proof.
+  unfold compare_data. rewrite !bytes_eqb_refl, Nat.eqb_refl. cbn [negb].
+  destruct (negb dd || is_nil d); auto. destruct (0 <? diff_data_size t d); auto.
+Qed.
+
+Definition kids_expr (o : dopts) (w1 w2 : world) (f : nat) (nm1 nm2 cf1 cf2 : bytes) (ks1 ks2 : list node) : list dline :=
+  if is_nil (sort_names_by (sort_key o) (map node_name ks1))
+  then map (fun q => DRight (slash nm2 q)) (sort_names_by (sort_key o) (map node_name ks2))
+  else if is_nil (sort_names_by (sort_key o) (map node_name ks2))
+       then map (fun p => DLeft (slash nm1 p)) (sort_names_by (sort_key o) (map node_name ks1))
+       else diff_loop MCur false (find_key o)
+              (fun p q =>
+                 match find_kid ks1 p, find_kid ks2 q with
+                 | Some k1, Some k2 => compare_nodes Cur MCur o w1 w2 f (slash nm1 p) cf1 k1 (slash nm2 q) cf2 k2
+                 | _, _ => [DErrExit]
+                 end)
+              (sort_names_by (sort_key o) (map node_name ks2)) nm1 nm2
+              (sort_names_by (sort_key o) (map node_name ks1)) 0.
+
+Lemma compare_nodes_S_gen o w1 w2 f name1 cf1 a1 l1 t1 d1 da1 ks1 name2 cf2 a2 l2 t2 d2 da2 ks2 :
+  compare_nodes Cur MCur o w1 w2 (S f) name1 cf1 (Node a1 l1 t1 d1 da1 ks1) name2 cf2 (Node a2 l2 t2 d2 da2 ks2) =
+  let out := if bytes_eqb name1 [47] && bytes_eqb name2 [47] then []
+             else compare_data (d_data o) name1 name2 (Node a1 l1 t1 d1 da1 ks1) (Node a2 l2 t2 d2 da2 ks2) in
+  if negb (d_recurse o) then out
+  else out ++ kids_expr o w1 w2 f (unroot name1) (unroot name2) cf1 cf2 ks1 ks2.
+Proof. destruct o as [dd df dc ds dr]. destruct dr, df; reflexivity. Qed.
+
+Lemma find_name_self key p rest : find_name MCur key p (p :: rest) = 0.
+Proof. unfold find_name. cbn [nth]. rewrite bytes_eqb_refl. reflexivity. Qed.
+
+Lemma diff_loop_self key rec nm1 nm2 c : forall todo done,
+  c = done ++ todo -> (forall p, In p todo -> rec p p = []) ->
+  diff_loop MCur false key rec c nm1 nm2 todo (lenZ done) = [].
+Proof.
+  induction todo as [|p rest IH]; intros done Hc Hall; cbn [diff_loop].
+  - rewrite Hc, skipn_lenZ_app. reflexivity.
+  - assert (Hsk : skipn (Z.to_nat (lenZ done)) c = p :: rest) by (rewrite Hc; apply skipn_lenZ_app).
+    rewrite Hsk, find_name_self.
+    assert (Hlt : lenZ done <? lenZ c = true).
+    { apply Z.ltb_lt. rewrite Hc, lenZ_app, lenZ_cons. pose proof (lenZ_nonneg rest). lia. }
+    rewrite Hlt. change (0 <=? 0) with true. cbv iota. rewrite Z.add_0_l.
+    pose proof (lenZ_nonneg done) as Hd0.
+    destruct (Z.ltb_spec (lenZ done) 0) as [?|_]; [lia|].
+    rewrite Z.sub_diag. cbn [Z.to_nat firstn map app]. rewrite Z.max_id.
+    assert (Hle : lenZ c <=? lenZ done = false) by (apply Z.leb_gt; apply Z.ltb_lt; auto).
+    rewrite Hle.
+    assert (Hq : nth (Z.to_nat (lenZ done)) c [] = p).
+    { rewrite Hc. unfold lenZ. rewrite Nat2Z.id. apply nth_middle. }
+    rewrite Hq. cbn [negb orb]. rewrite (Hall p (or_introl eq_refl)). cbn [app].
+    specialize (IH (done ++ [p])). rewrite lenZ_app in IH. apply IH.
+    + rewrite <- app_assoc. auto.
+    + intros q I. apply Hall. right. auto.
+Qed.
+
+Lemma self_kids o w1 w2 f nm1 nm2 cf1 cf2 ks :
+  (forall name1 cf1 name2 cf2 t, link_free t = true -> (depth t <= f)%nat ->
+     compare_nodes Cur MCur o w1 w2 f name1 cf1 t name2 cf2 t = []) ->
+  forallb link_free ks = true -> (forall k, In k ks -> (depth k <= f)%nat) ->
+  kids_expr o w1 w2 f nm1 nm2 cf1 cf2 ks ks = [].
+Proof.
+  intros IH L D. unfold kids_expr.
+  assert (P : forall p, In p (sort_names_by (sort_key o) (map node_name ks)) -> In p (map node_name ks)).
+  { intros p. apply Permutation_in. apply sort_names_by_perm. }
+  remember (sort_names_by (sort_key o) (map node_name ks)) as c eqn:Ec.
+  destruct c as [|x r]; cbn [is_nil]; [reflexivity|].
+  apply (diff_loop_self _ _ _ _ (x :: r) (x :: r) []); auto.
+  intros p Ip. destruct (find_kid_in_names ks p (P p Ip)) as [k Hk]. rewrite Hk.
+  destruct (find_kid_some _ _ _ Hk) as [Ik _]. rewrite forallb_forall in L. apply IH; auto.
+Qed.
+
+Theorem self_compare_silent : forall o w1 w2 fuel name1 cf1 name2 cf2 t,
+  link_free t = true -> (depth t <= fuel)%nat ->
+  compare_nodes Cur MCur o w1 w2 fuel name1 cf1 t name2 cf2 t = [].
+Proof.
+  intros o w1 w2. induction fuel as [|f IH]; intros name1 cf1 name2 cf2 t L D.
+  { destruct t; simpl in D; lia. }
+  destruct t as [a l dt d da ks|]; [|discriminate].
+  rewrite compare_nodes_S_gen. cbv zeta. rewrite compare_data_refl.
+  assert (E : kids_expr o w1 w2 f (unroot name1) (unroot name2) cf1 cf2 ks ks = []).
+  { apply self_kids; auto. intros k I. pose proof (depth_kid _ _ I). simpl in D. lia. }
+  rewrite E. destruct (bytes_eqb name1 [47] && bytes_eqb name2 [47]); destruct (negb (d_recurse o)); reflexivity.
+Qed.
+
+Theorem cgnsdiff_self_silent : forall o w1 w2 fuel f1 f2 r1 r2,
+  get_file w1 f1 = Some r1 -> get_file w2 f2 = Some r2 -> kids_of r2 = kids_of r1 ->
+  link_free r1 = true -> link_free r2 = true -> (depth r1 <= fuel)%nat ->
+  cgnsdiff Cur MCur o w1 w2 fuel f1 f2 = [].
+Proof.
+  intros o w1 w2 fuel f1 f2 r1 r2 G1 G2 EK L1 L2 D. unfold cgnsdiff. rewrite G1, G2.
+  destruct fuel as [|f]. { destruct r1; simpl in D; lia. }
+  destruct r1 as [a1 l1 dt1 d1 da1 ks1|]; [|discriminate].
+  destruct r2 as [a2 l2 dt2 d2 da2 ks2|]; [|discriminate].
+  simpl in EK. subst ks2.
+  rewrite compare_nodes_S_gen. cbv zeta. change (bytes_eqb [47] [47]) with true. cbn [andb app].
+  assert (E : kids_expr o w1 w2 f (unroot [47]) (unroot [47]) f1 f2 ks1 ks1 = []).
+  { apply self_kids; auto.
+    - intros. apply self_compare_silent; auto.
+    - intros k I. pose proof (depth_kid _ _ I). simpl in D. lia. }
+  rewrite E. destruct (negb (d_recurse o)); reflexivity.
+Qed.
+
+(* the position the repaired loop computes: -1 or an index of c2 not before n2 *)
+Definition cur_nret (key : bytes -> bytes) (p : bytes) (c2 : list bytes) (n2 : Z) : Z :=
+  if n2 <? lenZ c2
+  then (let r := find_name MCur key p (skipn (Z.to_nat n2) c2) in if 0 <=? r then r + n2 else r)
+  else -1.
+Lemma cur_nret_bound key p c2 n2 : 0 <= n2 -> cur_nret key p c2 n2 = -1 \/ n2 <= cur_nret key p c2 n2 < lenZ c2.
+Proof.
+  intros Hn. unfold cur_nret. destruct (Z.ltb_spec n2 (lenZ c2)) as [Hlt|_]; auto. cbv zeta.
+  assert (Hl : lenZ (skipn (Z.to_nat n2) c2) = lenZ c2 - n2).
+  { unfold lenZ in *. rewrite skipn_length. lia. }
+  assert (Hne : skipn (Z.to_nat n2) c2 <> []).
+  { intros C. rewrite C in Hl. change (lenZ (@nil bytes)) with 0 in Hl. lia. }
+  pose proof (find_name_bound key MCur p _ Hne) as B.
+  destruct (Z.leb_spec 0 (find_name MCur key p (skipn (Z.to_nat n2) c2))); [right|left]; lia.
+Qed.
+Lemma diff_loop_cur_cons chk key rec c2 nm1 nm2 p rest n2 :
+  diff_loop MCur chk key rec c2 nm1 nm2 (p :: rest) n2 =
+  if cur_nret key p c2 n2 <? 0 then DLeft (slash nm1 p) :: diff_loop MCur chk key rec c2 nm1 nm2 rest n2
+  else map (fun q => DRight (slash nm2 q))
+           (firstn (Z.to_nat (cur_nret key p c2 n2 - n2)) (skipn (Z.to_nat n2) c2)) ++
+       (if lenZ c2 <=? Z.max n2 (cur_nret key p c2 n2) then [DOutOfBounds]
+        else if negb chk || (path_fits nm1 p && path_fits nm2 (nth (Z.to_nat (Z.max n2 (cur_nret key p c2 n2))) c2 []))
+             then rec p (nth (Z.to_nat (Z.max n2 (cur_nret key p c2 n2))) c2 []) ++
+                  diff_loop MCur chk key rec c2 nm1 nm2 rest (Z.max n2 (cur_nret key p c2 n2) + 1)
+             else [DPathOverflow]).
+Proof. reflexivity. Qed.
+
+Theorem diff_loop_cur_in_bounds : forall chk key rec c2 nm1 nm2 l1 n2,
+  0 <= n2 ->
+  ~ In DOutOfBounds
+      (diff_loop MCur chk key
+         (fun p q => filter (fun d => match d with DOutOfBounds => false | _ => true end) (rec p q))
+         c2 nm1 nm2 l1 n2).
+Proof.
+  intros chk key rec c2 nm1 nm2. induction l1 as [|p rest IH]; intros n2 Hn.
+  - cbn [diff_loop]. intros I. apply in_map_iff in I as (q & C & _). discriminate.
+  - rewrite diff_loop_cur_cons. destruct (cur_nret_bound key p c2 n2 Hn) as [E|B].
+    + rewrite E. change (-1 <? 0) with true. cbv iota. intros [C|I]; [discriminate|]. apply (IH n2 Hn I).
+    + remember (cur_nret key p c2 n2) as nr eqn:Enr. clear Enr.
+      destruct (Z.ltb_spec nr 0) as [?|_]; [lia|].
+      replace (Z.max n2 nr) with nr by lia.
+      destruct (Z.leb_spec (lenZ c2) nr) as [?|_]; [lia|].
+      intros I. apply in_app_or in I as [I|I].
+      * apply in_map_iff in I as (q & C & _). discriminate.
+      * destruct (negb chk || (path_fits nm1 p && path_fits nm2 (nth (Z.to_nat nr) c2 []))).
+        -- apply in_app_or in I as [I|I].
+           ++ apply filter_In in I as [_ C]. discriminate.
+           ++ apply (IH (nr + 1)); auto. lia.
+        -- destruct I as [C|[]]. discriminate.
 Qed.
 End DiffP.
 
@@ -1504,8 +1722,8 @@ Lemma diff_cross_format_root_label_old :
   exists w src dst w', get_file w src = Some (with_kids adf_root [Node [78] [76] I4 [1] [7;0;0;0] []]) /\
     cgnsconvert Cur 4 w src dst true false = Ok w' /\
     (forall r r', get_file w' src = Some r -> get_file w' dst = Some r' -> kids_of r' = kids_of r) /\
-    cgnsdiff Old o_d w' w' 8 src dst = [DLabel [47] [47]] /\
-    cgnsdiff Cur o_d w' w' 8 src dst = [].
+    cgnsdiff Old MOld o_d w' w' 8 src dst = [DLabel [47] [47]] /\
+    cgnsdiff Cur MCur o_d w' w' 8 src dst = [].
 Proof.
   exists [([65], with_kids adf_root [Node [78] [76] I4 [1] [7;0;0;0] []])], [65], [72]. eexists.
   split; [reflexivity|]. split; [vm_compute; reflexivity|]. split; [|split; vm_compute; reflexivity].
@@ -1519,7 +1737,7 @@ Definition linkfile (v : Z) : node := with_kids adf_root
    LinkNode [75] [] [47;84;v]].
 Lemma diff_link_target_blind :
   exists w f1 f2 r1 r2, get_file w f1 = Some r1 /\ get_file w f2 = Some r2 /\
-    cgnsdiff Cur o_d w w 8 f1 f2 = [] /\
+    cgnsdiff Cur MCur o_d w w 8 f1 f2 = [] /\
     strip (canon r1) <> strip (canon r2) /\
     full_view 8 w f1 r1 <> full_view 8 w f2 r2 /\ full_view 8 w f1 r1 <> None /\ full_view 8 w f2 r2 <> None.
 Proof.
@@ -1527,19 +1745,21 @@ Proof.
   repeat split; try reflexivity; vm_compute; discriminate.
 Qed.
 
-(* open finding: siblings whose names collide after normalisation (x, Y, y under -c; a, "b c", bc under -i), a file against
-   itself: spurious lines, then children2[33*n2] is read with n2 = nc2; without -c / -i the same pair is silent *)
+(* before 180fd8e: siblings whose names collide after normalisation (x, Y, y under -c; a, "b c", bc under -i), a file
+   against itself: spurious lines, then children2[33*n2] was read with n2 = nc2; now the same pairs are silent (and so is
+   every forest compared with itself: self_compare_silent) *)
 Definition collide_c : node := with_kids adf_root
   [Node [120] [1] s_MT [] [] []; Node [89] [2] s_MT [] [] []; Node [121] [3] s_MT [] [] []].
 Definition collide_i : node := with_kids adf_root
   [Node [97] [1] s_MT [] [] []; Node [98;32;99] [2] s_MT [] [] []; Node [98;99] [3] s_MT [] [] []].
-Lemma diff_name_collision :
+Lemma diff_name_collision_old :
   names_unique collide_c = true /\ keys_unique (find_key o_cd) collide_c = false /\
-  cgnsdiff Cur o_cd [([65], collide_c)] [([65], collide_c)] 5 [65] [65] =
+  cgnsdiff Cur MOld o_cd [([65], collide_c)] [([65], collide_c)] 5 [65] [65] =
     [DRight [47;89]; DLabel [47;89] [47;121]; DOutOfBounds] /\
-  cgnsdiff Cur o_d [([65], collide_c)] [([65], collide_c)] 5 [65] [65] = [] /\
+  cgnsdiff Cur MCur o_cd [([65], collide_c)] [([65], collide_c)] 5 [65] [65] = [] /\
   names_unique collide_i = true /\ keys_unique (find_key o_di) collide_i = false /\
-  has_oob (cgnsdiff Cur o_di [([65], collide_i)] [([65], collide_i)] 5 [65] [65]) = true.
+  has_oob (cgnsdiff Cur MOld o_di [([65], collide_i)] [([65], collide_i)] 5 [65] [65]) = true /\
+  cgnsdiff Cur MCur o_di [([65], collide_i)] [([65], collide_i)] 5 [65] [65] = [].
 Proof. repeat (split; [vm_compute; reflexivity|]). vm_compute; reflexivity. Qed.
 
 (* a chain of n nodes with 32-character names "nDDxxxx..." *)
@@ -1555,8 +1775,8 @@ Definition has_overflow (l : list dline) : bool :=
 Lemma diff_deep_path_overflow_old :
   exists w f r, get_file w f = Some r /\ link_free r = true /\ names_unique r = true /\ tree_ok Cur true r = true /\
     copy_file Cur false (fun _ _ => None) 0 false r adf_root = Ok r /\
-    has_overflow (cgnsdiff Old o_d w w 64 f f) = true /\
-    cgnsdiff Cur o_d w w 64 f f = [].
+    has_overflow (cgnsdiff Old MOld o_d w w 64 f f) = true /\
+    cgnsdiff Cur MCur o_d w w 64 f f = [].
 Proof.
   exists [([65], with_kids adf_root (chain 40 0))], [65], (with_kids adf_root (chain 40 0)).
   split; [reflexivity|]. split; [vm_compute; reflexivity|]. split; [vm_compute; reflexivity|].
